@@ -346,6 +346,31 @@ theorem audit_tables_nonvacuous :
     libtool_triples.length ≥ 2 ∧ soname_refs.length ≥ 3 ∧ swig_invocations.length ≥ 6 ∧ versions.length ≥ 9 ∧
     libc_names.length ≤ 1 := by decide +kernel
 
+/-! ## 11. Java constants that are loaded at run time
+
+Twelve constants of `java/Xraylib.java` (`ZMAX … R_E`) are `public static int|double NAME;` fields without initialiser: the static
+initialiser `XRayInit()` fills them, in a fixed order, from the leading scalars of `xraylib.dat`, and the build-time generator
+`java/pr_data_java.c` writes those scalars from locals initialised with C expressions.  `const_java_dynamic` pairs each field with the
+value of the expression written into the slot it is read from (tools/extract_bindings.py `java_dynamic_feed` lexes both ends). -/
+
+/-- every run-time loaded Java constant that carries a C name receives exactly the value of the C macro of that name -/
+theorem constants_agree_java_dynamic : Agree const_java_dynamic cconst :=
+  agreeExcept_nil.mp (agreeB_sound (by decide +kernel))
+
+/-- the fields `XRayInit()` fills from the head of `xraylib.dat` are exactly the fields declared without initialiser, each read with the
+`get…()` of its declared type (so none of them stays 0, and none is filled from a value of the other width); and every one of them is
+covered by `const_java_dynamic`: no slot is written from an expression the extractor could not evaluate -/
+theorem java_dynamic_fields_exact : java_dynamic_read = java_dynamic_declared ∧ java_dynamic_unevaluated = [] := by decide +kernel
+
+/-- slot by slot, the generator writes a scalar of the type the Java side reads (same number of scalars, same widths: the tables that
+follow in the file are not shifted) -/
+theorem java_dynamic_slots_agree : java_dynamic_slot_types = java_dynamic_read_types := by decide +kernel
+
+/-- the tables of this section are the real ones: twelve fields on /repo, every one of them named after a constant of the C headers -/
+theorem java_dynamic_nonvacuous :
+    const_java_dynamic.length ≥ 10 ∧ java_dynamic_declared.length ≥ 10 ∧
+    (const_java_dynamic.filter fun e => cconst.any fun h => h.n == e.n).length ≥ 10 := by decide +kernel
+
 example : bindsSameB [⟨5, 200, []⟩, ⟨6, 0, []⟩] [9] [(5, 5), (5, 6), (5, 9)] = true := by decide
 example : bindsSameB [⟨5, 200, []⟩, ⟨7, 200, []⟩] [] [(5, 7)] = false := by decide
 example : bindsOwnB [5] [] [(5, 6)] = false := by decide
